@@ -765,7 +765,9 @@ def execute(spec, fault, bump):
         return out
     if state["bad_objective"] is not None:
         violate("objective_not_the_documented_sum", kind, state["bad_objective"])
-    if kind in ("calibrate", "optimize") and len(hist) > spec["maxiters"] + 1:
+    # ASD evaluates the starting point once and then at most maxiters proposals; optimize() additionally evaluates the
+    # starting point itself beforehand (the "initial objective must be finite" check)
+    if kind in ("calibrate", "optimize") and len(hist) > spec["maxiters"] + (2 if kind == "optimize" else 1):
         # bounded progress: whatever the clock does (jumps back, stalls), the iteration budget ends the procedure
         violate("iteration_budget_exceeded", kind, {"maxiters": spec["maxiters"], "objective_evaluations": len(hist), "clock_faults": clock.fired})
     if hist:
